@@ -37,6 +37,9 @@ THEOREMS = [
     "wire_attr_roundtrip",
     "escape_alone_loses_cr",
     "escape_alone_attr_loses_ws",
+    "history_irrelevant",
+    "same_setting_same_request",
+    "memoised_marshaller_refuted",
 ]
 
 PRE = "From SV Require Import Lib.Base C05.Model."
@@ -53,6 +56,7 @@ K_CAPTURED = "C05:prefixes-off-unqualified-captured"
 K_OTHER = "C05:request-changes-with-options"
 K_BUILD = "C05:request-not-built"
 K_TEXT = "C05:character-data-changes-on-the-wire"
+K_HIST = "C05:request-depends-on-earlier-option-settings"
 
 _GP = re.compile(r"^ns(0|[1-9][0-9]{0,4})$")
 
@@ -450,14 +454,76 @@ def pick_prefixes(rng, n):
     return rng.sample(["ns0", "ns1", "ns2", "ns10", "tn", "q", "r", "m"], n)
 
 
+def cross_ns_schema(rng):
+    """A schema whose extension chains cross namespaces and whose holder type has SEVERAL members of the
+    base type: one request then carries xsi:type values naming derived types of different namespaces on
+    sibling elements (Typer.genprefix picks the same local prefix for each of them)."""
+    n_ns = rng.choice([2, 3, 3])
+    S = F.Schema([("urn:fam:ns%d" % i, rng.random() < 0.6) for i in range(n_ns)])
+    cnt = [0]
+
+    def el(ns, tref, **kw):
+        cnt[0] += 1
+        return F.Elem("e%d" % cnt[0], ns, S.namespaces[ns][1], tref, **kw)
+
+    def seq(ns, n):
+        return [F.Cont("sequence", False, [el(ns, ("b", rng.choice(F.BUILTINS)), opt=rng.random() < 0.3)
+                                           for _ in range(n)])]
+    b_ns = rng.randrange(n_ns)
+    S.types.append(F.CType("T0", b_ns, None, seq(b_ns, rng.choice([1, 2])), []))
+    derived = []
+    nss = list(range(n_ns))
+    rng.shuffle(nss)
+    for i, ns in enumerate(nss + [rng.randrange(n_ns)]):
+        base = ("T0" if (not derived or rng.random() < 0.6) else rng.choice(derived))
+        bt = [t for t in S.types if t.name == base][0]
+        name = "T%d" % (i + 1)
+        S.types.append(F.CType(name, ns, (bt.ns, bt.name), seq(ns, rng.choice([1, 1, 2])), []))
+        derived.append(name)
+    h_ns = rng.randrange(n_ns)
+    members = []
+    for _ in range(rng.choice([2, 3, 4])):
+        members.append(el(h_ns, ("n", b_ns, "T0"), multi=rng.random() < 0.3, nillable=rng.random() < 0.2))
+    if rng.random() < 0.5:
+        members.insert(rng.randrange(len(members) + 1), el(h_ns, ("b", "string")))
+    S.types.append(F.CType("H", h_ns, None, [F.Cont("sequence", False, members)], []))
+    return S
+
+
+def cross_ns_value(rng, S, as_dict):
+    """a value of the holder type H whose T0-typed members are instances of derived types"""
+    H = S.type(*[(t.ns, t.name) for t in S.types if t.name == "H"][0])
+    base = [t for t in S.types if t.name == "T0"][0]
+    cands = [t for t in S.types if t is not base and S.derived_from(t, base)]
+
+    def one():
+        real = rng.choice(cands) if rng.random() < 0.85 else base
+        return F.gen_object(rng, S, real, depth=2, typed=True)
+    fields = []
+    for p, _ in S.flat(H):
+        if p.tref[0] == "b":
+            fields.append((p.name, ("leaf",) + F.gen_leaf(rng, p.tref[1])))
+        elif p.multi:
+            fields.append((p.name, [one() for _ in range(rng.choice([1, 2, 3]))]))
+        else:
+            fields.append((p.name, one()))
+    return F.VObj(None if as_dict else (H.ns, H.name), fields)
+
+
 def gen_case(seed, idx):
     """Everything about request number idx is drawn from its own generator."""
     rng = random.Random("C05/%d/%d" % (seed, idx))
     c = Case()
     c.idx = idx
     S = F.gen_schema(rng)
-    c.S = S
     t = rng.choice(S.types)
+    # every fifth request or so: derived types of several namespaces on sibling elements (own stream)
+    rngx = random.Random("C05x/%d/%d" % (seed, idx))
+    c.cross_ns = rngx.random() < 0.22
+    if c.cross_ns:
+        S = cross_ns_schema(rngx)
+        t = [x for x in S.types if x.name == "H"][0]
+    c.S = S
     style = rng.choice(["wrapped", "wrapped", "wrapped", "bare", "rpc"])
     c.style = style
     counter = [0]
@@ -465,14 +531,15 @@ def gen_case(seed, idx):
     if style == "wrapped":
         op = F.Op("op0", "wrapped", in_type=(t.ns, t.name))
         c.port, c.opname = "port_document", "op0"
-        obj = F.gen_object(rng, S, t, depth=0, typed=False)
+        obj = cross_ns_value(rngx, S, True) if c.cross_ns else F.gen_object(rng, S, t, depth=0, typed=False)
         kw = dict((k, v) for k, v in obj.fields if not k.startswith("_"))
         c.args_abs, c.kwargs_abs = [], kw
     elif style == "bare":
         b1 = rng.choice(F.BUILTINS)
         op = F.Op("bare0", "bare", parts=[("g1", ("n", t.ns, t.name)), ("g2", ("b", b1))])
         c.port, c.opname = "port_document", "bare0"
-        v1 = F.gen_value(rng, S, F.Elem("g1", 0, True, ("n", t.ns, t.name)), depth=1)
+        v1 = cross_ns_value(rngx, S, rngx.random() < 0.5) if c.cross_ns else \
+            F.gen_value(rng, S, F.Elem("g1", 0, True, ("n", t.ns, t.name)), depth=1)
         v2 = ("leaf",) + F.gen_leaf(rng, b1)
         c.args_abs, c.kwargs_abs = [], {"g1": v1, "g2": v2}
     else:
@@ -480,7 +547,8 @@ def gen_case(seed, idx):
         op = F.Op("rpc0", "rpc", parts=[("x", ("n", t.ns, t.name)), ("y", ("b", b2))],
                   body_ns=rng.randrange(len(S.namespaces)))
         c.port, c.opname = "port_rpc", "rpc0"
-        vx = F.gen_value(rng, S, F.Elem("x", 0, False, ("n", t.ns, t.name), opt=True), depth=1)
+        vx = cross_ns_value(rngx, S, rngx.random() < 0.5) if c.cross_ns else \
+            F.gen_value(rng, S, F.Elem("x", 0, False, ("n", t.ns, t.name), opt=True), depth=1)
         vy = None if rng.random() < 0.2 else ("leaf",) + F.gen_leaf(rng, b2)
         c.args_abs, c.kwargs_abs = [], {"x": vx, "y": vy}
     if rng.random() < 0.3:
@@ -545,13 +613,16 @@ def gen_case(seed, idx):
             c.header_order = [(k, x if k == "el" else next(vals)) for k, x in c.header_order]
         c.ws_hits = hit[0]
     c.wsdl = F.render_ops(S, [op], R)
+    # the order in which ONE client is switched through the settings (all 16, six of them revisited)
+    rng5 = random.Random("C05o/%d/%d" % (seed, idx))
+    c.walk = list(range(16))
+    rng5.shuffle(c.walk)
+    c.walk += [rng5.randrange(16) for _ in range(6)]
     return c
 
 
-def run_case(c):
-    """Drive the implementation; returns (error or None).  Fills c.tree_q/tree_u
-    (envelope trees before the prefix pass), c.outs (16 byte strings or
-    exception text)."""
+def new_client(c):
+    """a FRESH client for the case's WSDL with the case's arguments and soap headers built for it"""
     from . import sudsutil as U
     client = U.client_from_wsdl(c.wsdl, nosend=True)
     kwargs = dict((k, to_py(client, c.S, v)) for k, v in c.kwargs_abs.items())
@@ -563,11 +634,28 @@ def run_case(c):
         headers = [build_el(h) for h in c.headers]
     if headers:
         client.set_options(soapheaders=headers)
-    svc = client.service[c.port]
-    m = getattr(svc, c.opname)
-    method = m.method
+    return client, kwargs
+
+
+def send(c, client, kwargs, setting):
+    p, y, x, s = setting
+    client.set_options(prefixes=p, prettyxml=y, xstq=x, sortNamespaces=s)
+    try:
+        ctx = getattr(client.service[c.port], c.opname)(**dict(kwargs))
+        return bytes(ctx.envelope)
+    except Exception as e:   # noqa
+        return "EXC " + repr(e)
+
+
+def run_case(c):
+    """Drive the implementation.  Fills c.trees (envelope trees before the prefix pass, each from a fresh
+    client under that xstq), c.outs (the request under each of the 16 settings, each from a FRESH client:
+    bytes or exception text) and c.walk_outs (the requests of ONE client switched through c.walk, a
+    sequence of settings visiting all 16 in a per-case order, some twice)."""
     c.trees = {}
     for xstq in (True, False):
+        client, kwargs = new_client(c)
+        method = getattr(client.service[c.port], c.opname).method
         client.set_options(xstq=xstq, prefixes=True, prettyxml=False, sortNamespaces=True)
         b = method.binding.input
         hc = b.headercontent(method)
@@ -576,13 +664,11 @@ def run_case(c):
         body = b.body(bc)
         c.trees[xstq] = b.envelope(header, body)
     c.outs = []
-    for (p, y, x, s) in SETTINGS:
-        client.set_options(prefixes=p, prettyxml=y, xstq=x, sortNamespaces=s)
-        try:
-            ctx = getattr(client.service[c.port], c.opname)(**dict(kwargs))
-            c.outs.append(bytes(ctx.envelope))
-        except Exception as e:   # noqa
-            c.outs.append("EXC " + repr(e))
+    for setting in SETTINGS:
+        client, kwargs = new_client(c)
+        c.outs.append(send(c, client, kwargs, setting))
+    client, kwargs = new_client(c)
+    c.walk_outs = [send(c, client, kwargs, SETTINGS[i]) for i in c.walk]
     return None
 
 
@@ -616,6 +702,24 @@ def features(c):
             f.add("typed-wsdl-header-under-ns<k>-style-wsdl-prefixes")
     if c.ws_hits:
         f.add("CR-LF-TAB-in-text-or-attribute")
+    types = set()
+
+    def xt(e, sibs):
+        for a in e.attributes:
+            if a.prefix == "xsi" and a.name == "type" and ":" in str(a.getValue()):
+                p = str(a.getValue()).split(":", 1)[0]
+                ns = e.resolvePrefix(p)
+                types.add((p, ns[1]))
+        for k in e.children:
+            xt(k, e.children)
+    try:
+        xt(c.trees[True], [])
+    except Exception:   # noqa
+        pass
+    if len(set(u for _, u in types)) >= 2:
+        f.add("xsi:type-values-of-2+-namespaces")
+    if len(types) > len(set(p for p, _ in types)):
+        f.add("one-xsi:type-prefix-bound-to-2+-namespaces-on-different-elements")
     return f
 
 
@@ -635,12 +739,21 @@ def case_literal(c, wfix):
         if t not in distinct:
             distinct.append(t)
         idx.append(distinct.index(t))
+    walk = []
+    c.walk_parsed = []
+    for i, o in zip(c.walk, c.walk_outs):
+        t = parse_request(o)[0] if isinstance(o, bytes) else None
+        c.walk_parsed.append(t)
+        if t not in distinct:
+            distinct.append(t)
+        walk.append("(%d%%nat, %d%%nat)" % (i, distinct.index(t)))
     raws = ["(%s, %s)" % (n_(I(d.name)), itree_of(I, expected_el(d))) for d in c.raws]
-    return "(mkR %s %s %s %s %s %s)%%N" % (
+    return "(mkR %s %s %s %s %s %s %s)%%N" % (
         cbool(wfix), tq, tu,
         clist([copt(itree_of(I, t) if t is not None else None, "itree") for t in distinct], "option itree"),
         clist(["%d%%nat" % i for i in idx], "nat"),
-        clist(raws, "N * itree"))
+        clist(raws, "N * itree"),
+        clist(walk, "nat * nat"))
 
 
 def find_named(t, name):
@@ -865,6 +978,10 @@ def run(ck):
         "Attribute.__unicode__ (CR / TAB / LF as character references) under str() and plain()",
         "covered by correspondence only: the marshaller producing the tree before the prefix pass, "
         "headercontent's deepcopy of Element headers, Document.str/plain prolog",
+        "state over time (coq/C05/History.v): each of the 16 requests is taken from a FRESH client; in addition ONE "
+        "client is switched through all 16 settings in a per-case order (6 revisits) and every request it sends is "
+        "compared in Coq with the fresh client's (req_history_independent); the trees before the prefix pass come "
+        "from fresh clients too",
         "sortNamespaces is read only by ServiceDefinition.pushprefixes (checked on the source each run); "
         "the request bytes are additionally compared between sortNamespaces=True/False",
         "mixed content (text next to child elements) and the xml: prefix are not generated",
@@ -910,6 +1027,8 @@ def run(ck):
         ck.count("style-" + c.style)
         for i in range(16):
             ck.seen(("req", idx, i), nontrivial=bool(fs - {"plain-attribute"}))
+        for k in range(len(c.walk)):
+            ck.seen(("walk", idx, k), nontrivial=k > 0)
         # sortNamespaces must not even change the bytes
         for i in range(0, 16, 2):
             if c.outs[i] != c.outs[i + 1]:
@@ -922,7 +1041,8 @@ def run(ck):
                    "prefixes=False,pretty=False": c0.outs[2].decode("utf-8", "replace")[:600] if isinstance(c0.outs[2], bytes) else c0.outs[2]})
 
     preds = ["req_agrees", "req_spec_ok", "req_spec_sound_part", "req_agrees_sound_part",
-             "fun c => negb (thm_guard c)", "thm_instance", "fun c => negb (lattice_guard_case c)"]
+             "fun c => negb (thm_guard c)", "thm_instance", "fun c => negb (lattice_guard_case c)",
+             "req_history_independent"]
     res = ck.run_cases("req", PRE, "rcase", lits, preds, shard=8)
     bad_agree, bad_spec = set(res["req_agrees"]), set(res["req_spec_ok"])
     bad_sound, bad_agree_sound = set(res["req_spec_sound_part"]), set(res["req_agrees_sound_part"])
@@ -930,6 +1050,17 @@ def run(ck):
     ck.extra["theorem_instance_failures"] = len(res["thm_instance"])
     ck.extra["requests_inside_options_lattice_guard"] = len(res[preds[6]])
     disagreements = []
+    for i in res["req_history_independent"][:2]:
+        c = cases[i]
+        step = next((k for k, (st, t) in enumerate(zip(c.walk, c.walk_parsed)) if t != c.parsed[st]), None)
+        ck.failing_input(K_HIST, "one client switched through the option settings %s sends, at step %s, a request "
+                         "that differs from what a fresh client sends under the same setting; operation %s"
+                         % ([SETTINGS[k] for k in c.walk[:(step or 0) + 1]], step, c.opname),
+                         payload_of(c, {"walk": [str(SETTINGS[k]) for k in c.walk], "first_differing_step": step,
+                                        "request_at_that_step": (c.walk_outs[step].decode("utf-8", "replace")
+                                                                 if step is not None and isinstance(c.walk_outs[step], bytes)
+                                                                 else None),
+                                        "case": lits[i]}))
     for i, c in enumerate(cases):
         if i in bad_sound or (i in bad_spec and i in bad_agree):
             # not one infoset, and not in the way the known defects predict
@@ -1005,7 +1136,8 @@ def run(ck):
                "arguments (None for nillable, derived types, 30% with raw Element values, 35% with Element soap "
                "headers incl. clashing ns<k> prefixes, 40% with typed headers the WSDL declares under ns<k>-style "
                "WSDL prefixes, 45% with CR / CRLF / TAB / LF in string values, attribute values and raw element "
-               "texts) x all 16 settings of prefixes x prettyxml x xstq x "
+               "texts, 22% with derived types of 2-3 namespaces on sibling elements) x all 16 settings (fresh client "
+               "each) + one client walked through the 16 settings in a shuffled order x all 16 settings of prefixes x prettyxml x xstq x "
                "sortNamespaces; distinct = (request, setting); non-trivial = the tree has a raw value, a header, "
                "xsi:nil/xsi:type, a prefixed attribute or an unqualified element")
     ck.exhaustive = False
